@@ -1,0 +1,20 @@
+//go:build verif
+
+package lua
+
+// Verification hook for the C10 check: drives initCallFrame directly. Nothing here changes behaviour
+// of the library.
+
+// VerifInitCallFrame runs initCallFrame on L's registry for a frame of a Lua function with np named
+// parameters and nregs used registers (a vararg function when vararg is set) whose LocalBase is
+// localBase and that was handed nargs arguments. Nothing is pushed on the call stack. It returns
+// the frame's LocalBase afterwards (a vararg frame moves it above the arguments).
+func VerifInitCallFrame(L *LState, localBase, nargs, np, nregs int, vararg bool) int {
+	proto := &FunctionProto{NumParameters: uint8(np), NumUsedRegisters: uint8(nregs)}
+	if vararg {
+		proto.IsVarArg = VarArgIsVarArg
+	}
+	cf := &callFrame{Fn: &LFunction{IsG: false, Proto: proto}, LocalBase: localBase, NArgs: nargs}
+	L.initCallFrame(cf)
+	return cf.LocalBase
+}
